@@ -1,7 +1,7 @@
 """C04 — inherited contracts combine per Liskov: preconditions OR-ed, postconditions and invariants AND-ed."""
 from typing import Any, Dict, List, Optional
 
-from vkit import gen, prog, runner
+from vkit import gen, probe, prog, runner
 from vkit.model import Model, decos_of
 from vkit.probe import truth_bool
 
@@ -353,7 +353,89 @@ def specs(w, avoid_copy_shadow: bool = False):
             yield (str(shape), "metaclass-name:" + name, False, 0), spec
 
 
+OVERRULED_SOURCE = '''
+import icontract
+
+LOG = []
+
+
+class Interrupted(BaseException):
+    pass
+
+
+class Touchy:
+    """An argument whose repr cannot be taken (reprlib absorbs ordinary exceptions; this one is not an ordinary exception)."""
+
+    def __init__(self, v):
+        self.v = v
+
+    def __repr__(self):
+        LOG.append("repr")
+        raise Interrupted("repr of a Touchy")
+
+
+def only_for_positive(x):
+    LOG.append("factory")
+    raise RuntimeError("this error text is only defined for the inputs of the base class")
+
+
+class Base(icontract.DBC):
+    @icontract.require(lambda x: x.v > 0, error=only_for_positive)
+    {a}def with_factory(self, x):
+        LOG.append("body")
+        return x.v
+
+    @icontract.require(lambda x: x.v > 0)
+    {a}def with_message(self, x):
+        LOG.append("body")
+        return x.v
+
+
+class Derived(Base):
+    @icontract.require(lambda x: x.v < 0)
+    {a}def with_factory(self, x):
+        LOG.append("body")
+        return x.v
+
+    @icontract.require(lambda x: x.v < 0)
+    {a}def with_message(self, x):
+        LOG.append("body")
+        return x.v
+'''
+
+
+def run_overruled_groups(w) -> None:
+    """The group of the base is violated, the weaker group of the override holds: the call is accepted - also when the error of the
+    overruled group could not even be built (its factory raises for these inputs; an argument has no repr)."""
+    for is_async in (False, True):
+        loaded = prog.load_source(OVERRULED_SOURCE.replace("{a}", "async " if is_async else ""), w.scratch())
+        mod = loaded.module
+        try:
+            for member in ("with_factory", "with_message"):
+                for value, want in ((-3, "returned -3"), (5, "returned 5")):
+                    del mod.LOG[:]
+                    try:
+                        res = getattr(mod.Derived(), member)(mod.Touchy(value))
+                        if is_async:
+                            res = probe.drive(res)
+                        outcome = "returned {}".format(res)
+                    except BaseException as err:  # pylint: disable=broad-except
+                        outcome = "raised {}: {}".format(type(err).__name__, str(err)[:100])
+                    w.count("calls")
+                    w.count("overruled_group_calls")
+                    w.count("pre_evaluations")
+                    w.case(("overruled-group", member, value, is_async))
+                    if outcome != want:
+                        w.violation("C04/call-refused-because-of-the-error-of-an-overruled-group", "{}Derived().{}(Touchy({})): the effective precondition "
+                                    "(x.v > 0 or x.v < 0) holds but the call {}; log {}".format("async " if is_async else "", member, value, outcome, mod.LOG),
+                                    {"overruled": member, "async": is_async})
+        finally:
+            loaded.unload()
+
+
 def run(w) -> None:
+    if w.shard == 1 % w.nshards:
+        run_overruled_groups(w)
     for meta, spec in specs(w):
         w.count("hierarchies")
         run_spec(w, spec, meta)
@@ -361,6 +443,9 @@ def run(w) -> None:
 
 
 def replay(case, w) -> None:
+    if "overruled" in case:
+        run_overruled_groups(w)
+        return
     spec = case["prog"]
     model = Model(spec)
     contracts = runner.index_contracts(spec)
